@@ -7,6 +7,11 @@
 //	channel wp.run  : histories bulk | crash inside a bulk at any byte | restart on the real Active (snapshots taken
 //	                  at the fw.writeat points and cut to the torn length) vs `run` of the model: both files byte for
 //	                  byte, writer offsets, blocks handed to the indexer
+//	channel index   : the same kind of histories over uncompressed blocks with one real index worker vs buildIndex /
+//	                  fetch / search of the model: DocBlocks, DocsPositions, fetched bytes per ID, IDs per token
+//	channel sys.present : the oracle's histories over the real zstd blocks, model `present` vs what the real store serves
+//	oracle  fw.groupcommit : concurrent writers on the real FileWriter over a recording fake: every returned Write is
+//	                  covered by an fsync that started after its WriteAt; reserved ranges tile the file
 //	oracle  crash-restart : child processes (FracManager.Load, ingest, os.Exit at a write-path point), files cut to
 //	                  a torn length by the parent, next child restarts, ingests, ...; finally every acknowledged
 //	                  bulk must be found by its tokens and fetched byte for byte, an unacknowledged one wholly or
@@ -23,10 +28,12 @@ import (
 	"os"
 	"os/exec"
 	"path/filepath"
+	"runtime"
 	"sort"
 	"strconv"
 	"strings"
 	"sync"
+	"sync/atomic"
 	"time"
 
 	"go.uber.org/zap/zapcore"
@@ -38,6 +45,7 @@ import (
 	"github.com/ozontech/seq-db/frac/processor"
 	"github.com/ozontech/seq-db/fracmanager"
 	"github.com/ozontech/seq-db/logger"
+	"github.com/ozontech/seq-db/metric/stopwatch"
 	"github.com/ozontech/seq-db/parser"
 	"github.com/ozontech/seq-db/seq"
 	"github.com/ozontech/seq-db/verifhook"
@@ -53,16 +61,17 @@ type entry struct {
 }
 
 type comp struct {
-	dir     string
-	base    string
-	a       *frac.Active
-	ai      *frac.ActiveIndexer
-	drained chan struct{}
-	mu      sync.Mutex
-	entries []entry
-	down    bool
-	gray    bool // the meta file holds a length field whose allocation outcome depends on the machine: history abandoned
-	limiter *disk.ReadLimiter
+	dir      string
+	base     string
+	a        *frac.Active
+	ai       *frac.ActiveIndexer
+	drained  chan struct{}
+	mu       sync.Mutex
+	entries  []entry
+	down     bool
+	indexing bool // run the real index workers instead of draining the tasks
+	gray     bool // the meta file holds a length field whose allocation outcome depends on the machine: history abandoned
+	limiter  *disk.ReadLimiter
 }
 
 func newComp() *comp {
@@ -87,8 +96,12 @@ func (c *comp) abandon() {
 		c.a = nil
 	}
 	if c.ai != nil {
-		frac.VerifCloseIndexer(c.ai)
-		<-c.drained
+		if c.indexing {
+			c.ai.Stop()
+		} else {
+			frac.VerifCloseIndexer(c.ai)
+			<-c.drained
+		}
 		c.ai = nil
 	}
 }
@@ -105,14 +118,11 @@ func (c *comp) restart() {
 	c.mu.Unlock()
 	c.ai = frac.NewActiveIndexer(1, 64)
 	c.drained = make(chan struct{})
-	go func(ai *frac.ActiveIndexer, done chan struct{}) {
-		frac.VerifDrainIndexer(ai, func(pos uint64, meta []byte) {
-			c.mu.Lock()
-			c.entries = append(c.entries, entry{pos, append([]byte(nil), meta...)})
-			c.mu.Unlock()
-		})
-		close(done)
-	}(c.ai, c.drained)
+	if c.indexing {
+		c.ai.Start()
+	} else {
+		c.startDrain()
+	}
 	c.a = frac.NewActive(c.base, c.ai, c.limiter, cache.NewCache[[]byte](nil, nil), cache.NewCache[[]byte](nil, nil), &frac.Config{})
 	c.down = false
 	func() {
@@ -125,6 +135,17 @@ func (c *comp) restart() {
 			c.down = true
 		}
 	}()
+}
+
+func (c *comp) startDrain() {
+	go func(ai *frac.ActiveIndexer, done chan struct{}) {
+		frac.VerifDrainIndexer(ai, func(pos uint64, meta []byte) {
+			c.mu.Lock()
+			c.entries = append(c.entries, entry{pos, append([]byte(nil), meta...)})
+			c.mu.Unlock()
+		})
+		close(done)
+	}(c.ai, c.drained)
 }
 
 func (c *comp) bulk(d, m []byte) {
@@ -306,6 +327,169 @@ func nontrivial(h []event) bool {
 		}
 	}
 	return false
+}
+
+// ------------------------------------------------------------------ channel index: the real index workers, fetch and search
+
+type ldoc struct {
+	id     seq.ID
+	body   []byte
+	tokens []string
+}
+
+func plainBlocks(ds []ldoc) ([]byte, []byte) {
+	dp := frac.NewDocProvider()
+	for _, d := range ds {
+		dp.Append(d.body, nil, d.id, seq.Tokens(d.tokens...))
+	}
+	docs := append([]byte(nil), disk.PackDocBlock(dp.Docs, nil)...)
+	metas := disk.PackDocBlock(dp.Metas, nil)
+	metas.SetExt1(uint64(len(docs)))
+	return docs, append([]byte(nil), metas...)
+}
+
+func (c *comp) observeIndex(ids []seq.ID, toks []string) string {
+	if c.gray {
+		return ""
+	}
+	if c.down {
+		return "panic"
+	}
+	ctx := context.Background()
+	var pos, fet, sr []string
+	for _, id := range ids {
+		p := c.a.DocsPositions.GetSync(id)
+		if p == seq.DocPosNotFound {
+			pos = append(pos, "-")
+		} else {
+			b, o := p.Unpack()
+			pos = append(pos, fmt.Sprintf("%d.%d", b, o))
+		}
+	}
+	dp, release := c.a.DataProvider(ctx)
+	defer release()
+	for _, id := range ids {
+		var res [][]byte
+		var err error
+		func() {
+			defer func() {
+				if r := recover(); r != nil { // the fetcher turns a panic of the fraction into an error
+					err = fmt.Errorf("panic: %v", r)
+				}
+			}()
+			res, err = dp.Fetch([]seq.ID{id})
+		}()
+		if err != nil || len(res) != 1 || res[0] == nil {
+			fet = append(fet, "none")
+		} else {
+			fet = append(fet, vh.Hex(res[0]))
+		}
+	}
+	for _, t := range toks {
+		ast, err := parser.ParseSeqQL(t, seq.TestMapping)
+		must(err)
+		qpr, err := dp.Search(processor.SearchParams{AST: ast.Root, From: 0, To: math.MaxUint64, Limit: 1000})
+		if err != nil {
+			sr = append(sr, "error")
+			continue
+		}
+		var xs []string
+		seen := map[seq.ID]bool{}
+		idsFound := qpr.IDs.IDs()
+		sort.Slice(idsFound, func(i, j int) bool {
+			if idsFound[i].MID != idsFound[j].MID {
+				return idsFound[i].MID < idsFound[j].MID
+			}
+			return idsFound[i].RID < idsFound[j].RID
+		})
+		for _, id := range idsFound {
+			if !seen[id] {
+				seen[id] = true
+				xs = append(xs, fmt.Sprintf("%d.%d", id.MID, id.RID))
+			}
+		}
+		sr = append(sr, vh.JoinStrs(xs, ","))
+	}
+	return fmt.Sprintf("ok blocks=%s pos=%s fetch=%s search=%s", vh.JoinInts(c.a.DocBlocks.GetVals()), vh.JoinStrs(pos, ";"), vh.JoinStrs(fet, ";"), vh.JoinStrs(sr, ";"))
+}
+
+func chanIndex(o vh.Opts, rng *vh.RNG, fix bool) *vh.Channel {
+	ch := vh.NewChannel("index", "history of bulks / crashes / restarts over uncompressed blocks (PackDocBlock) built by frac.DocProvider from random "+
+		"documents (1-3 per bulk, IDs from a small pool so that re-delivered and clashing IDs occur, 1-3 tokens each), executed by the real "+
+		"frac.Active with one real index worker; compared with buildIndex/fetch/search of the model: DocBlocks, DocsPositions of every ID ever "+
+		"used, the bytes Fetch returns per ID, the IDs Search returns per token. Non-trivial: some document is served after a restart or crash")
+	if !fix {
+		ch.Tag("skipped: the unrepaired start-up lets garbage reach the index workers (process-fatal)")
+		return ch
+	}
+	toks := []string{"service:a", "service:b", "level:1"}
+	for i := 0; i < o.Pick(150, 2500); i++ {
+		c := newComp()
+		c.indexing = true
+		c.restart()
+		var evs []string
+		used := map[seq.ID]bool{}
+		var ids []seq.ID
+		wrote, nt := false, false
+		for j, n := 0, rng.Range(1, 6); j < n; j++ {
+			x := rng.Intn(10)
+			if x < 3 {
+				c.restart()
+				evs = append(evs, "R")
+				nt = nt || wrote
+				continue
+			}
+			var ds []ldoc
+			for k, m := 0, rng.Range(1, 3); k < m; k++ {
+				id := seq.ID{MID: seq.MID(1000 + rng.Intn(8)), RID: seq.RID(rng.Intn(2))}
+				if !used[id] {
+					used[id] = true
+					ids = append(ids, id)
+				}
+				var ts []string
+				for _, t := range toks {
+					if rng.Bool() {
+						ts = append(ts, t)
+					}
+				}
+				ts = append(ts, "_all_:")
+				ds = append(ds, ldoc{id, randBytes(rng, rng.Range(1, 12)), ts})
+			}
+			d, m := plainBlocks(ds)
+			if x < 7 {
+				c.bulk(d, m)
+				evs = append(evs, event{kind: 'B', d: d, m: m}.String())
+				wrote = true
+			} else {
+				inMeta := rng.Bool()
+				l := len(d)
+				if inMeta {
+					l = len(m)
+				}
+				ks := []int{0, 1, 33, l - 1, l, rng.Intn(l + 1)}
+				k := ks[rng.Intn(len(ks))]
+				c.tornBulk(d, m, inMeta, k)
+				evs = append(evs, event{kind: 'T', d: d, m: m, inMeta: inMeta, k: k}.String())
+				nt = nt || wrote
+			}
+		}
+		var idStrs, tokHex []string
+		for _, id := range ids {
+			idStrs = append(idStrs, fmt.Sprintf("%d.%d", id.MID, id.RID))
+		}
+		for _, t := range toks {
+			tokHex = append(tokHex, vh.Hex([]byte(t)))
+		}
+		impl := c.observeIndex(ids, toks)
+		c.close()
+		if impl == "" || len(ids) == 0 {
+			ch.Tag("skipped")
+			continue
+		}
+		ch.Add(fmt.Sprintf("index %s %s %s %s", vh.B(fix), vh.JoinStrs(evs, ";"), strings.Join(idStrs, ";"), strings.Join(tokHex, ";")), impl,
+			nt && strings.Contains(impl, "fetch=") && !strings.Contains(impl, "blocks=- "), fmt.Sprintf("events=%d", len(evs)), fmt.Sprintf("ids=%d", len(ids)))
+	}
+	return ch
 }
 
 // detectFix: does the start-up cut an orphan docs block away?  (selects `restart true|false` of the model)
@@ -633,20 +817,33 @@ func childMain(args []string) {
 		var b, point int
 		_, err := fmt.Sscanf(args[3], "%d:%d", &b, &point)
 		must(err)
-		n := 0
+		writes := 0
 		verifhook.Set(func(name, _ string, a []int64) {
-			if !strings.HasPrefix(name, "aw.") && !strings.HasPrefix(name, "fw.") {
-				return
+			stage := 0 // position inside ActiveWriter.Write, independent of which other points exist
+			switch name {
+			case "aw.begin":
+				stage = 1
+			case "fw.writeat":
+				writes++
+				stage = map[bool]int{true: 2, false: 5}[writes == 1]
+			case "fw.synced":
+				stage = map[bool]int{true: 3, false: 6}[writes == 1]
+			case "aw.docs":
+				stage = 4
+			case "aw.end":
+				stage = 7
 			}
-			n++
-			if n == point {
-				say("CRASH %d %s %d %d", n, name, a[0], a[1])
+			if stage == point {
+				say("CRASH %d %s %d %d", stage, name, a[0], a[1])
 				os.Exit(exitCrash)
 			}
 		})
 		docs, metas := bulkBlocks(b)
 		say("BLOCKS %d %d", len(docs), len(metas))
-		_ = fm.Append(ctx, docs, metas)
+		if err := fm.Append(ctx, docs, metas); err == nil { // the point does not exist (any more): the bulk went through
+			fm.WaitIdle()
+			say("ACK %d", b)
+		}
 		say("NOCRASH")
 	}
 	say("DONE")
@@ -751,7 +948,15 @@ type finding struct {
 }
 
 // runScenario executes the history with child processes and returns the property violations observed.
-func runScenario(s scenario) (findings []finding, tagsOut []string) {
+type sysObs struct {
+	up      bool
+	bulks   []int          // every bulk attempted, ascending
+	state   map[int]string // "1" wholly served, "0" wholly absent, "x" anything else
+	reached bool           // every requested crash point was reached
+}
+
+func runScenario(s scenario) (findings []finding, tagsOut []string, obs sysObs) {
+	obs = sysObs{state: map[int]string{}, reached: true}
 	dir, err := os.MkdirTemp("", "c01-sys-")
 	must(err)
 	defer os.RemoveAll(dir)
@@ -818,10 +1023,9 @@ func runScenario(s scenario) (findings []finding, tagsOut []string) {
 			}
 		}
 		if !check(res, fmt.Sprintf("round %d", i+1)) {
-			return findings, append(tagsOut, "stopped-early")
+			return findings, append(tagsOut, "stopped-early"), obs
 		}
 		if r.crash >= 0 {
-			unacked[r.crash] = true
 			var n, dlen, mlen int
 			var name string
 			var off, l int64
@@ -837,8 +1041,10 @@ func runScenario(s scenario) (findings []finding, tagsOut []string) {
 			}
 			if !crashed {
 				tagsOut = append(tagsOut, "crash-point-not-reached")
+				obs.reached = false
 				continue
 			}
+			unacked[r.crash] = true
 			tagsOut = append(tagsOut, fmt.Sprintf("crash@%d:%s", r.point, name))
 			// torn write: the un-fsynced last write keeps only k bytes
 			if name == "fw.writeat" && r.k >= 0 {
@@ -862,8 +1068,61 @@ func runScenario(s scenario) (findings []finding, tagsOut []string) {
 		}
 	}
 	res := runChild(dir, known(), nil, "-")
-	check(res, "final restart")
-	return findings, tagsOut
+	obs.up = check(res, "final restart")
+	obs.bulks = known()
+	for _, l := range res.lines {
+		if !strings.HasPrefix(l, "OBS ") {
+			continue
+		}
+		var b, n, search, extra, bytoken, exact, missing, wrong int
+		fmt.Sscanf(l, "OBS %d n=%d search=%d extra=%d bytoken=%d exact=%d missing=%d wrong=%d", &b, &n, &search, &extra, &bytoken, &exact, &missing, &wrong)
+		switch {
+		case search == n && bytoken == n && exact == n && extra == 0 && wrong == 0:
+			obs.state[b] = "1"
+		case search == 0 && bytoken == 0 && missing == n && extra == 0 && wrong == 0:
+			obs.state[b] = "0"
+		default:
+			obs.state[b] = "x"
+		}
+	}
+	return findings, tagsOut, obs
+}
+
+// modelHistory translates a scenario into the model's events over the real (compressed) blocks of its bulks
+func modelHistory(s scenario) string {
+	var evs []string
+	for _, r := range s.rounds {
+		for _, b := range r.ingest {
+			d, m := bulkBlocks(b)
+			evs = append(evs, event{kind: 'B', d: d, m: m}.String())
+		}
+		if r.crash < 0 {
+			evs = append(evs, "R")
+			continue
+		}
+		d, m := bulkBlocks(r.crash)
+		e := event{kind: 'T', d: d, m: m}
+		switch r.point {
+		case 1:
+			e.k = 0
+		case 2:
+			e.k = len(d)
+			if r.k >= 0 {
+				e.k = r.k
+			}
+		case 3, 4:
+			e.inMeta, e.k = true, 0
+		case 5:
+			e.inMeta, e.k = true, len(m)
+			if r.k >= 0 {
+				e.k = r.k
+			}
+		default:
+			e.inMeta, e.k = true, len(m)
+		}
+		evs = append(evs, e.String())
+	}
+	return strings.Join(evs, ";")
 }
 
 func lastLine(s string) string {
@@ -882,10 +1141,13 @@ func lastLine(s string) string {
 }
 
 func siteOf(class string) string {
+	if strings.HasSuffix(class, "/no-debris") {
+		return "frac/active.go:Append" // no crash left anything behind: the write / index / fetch path itself
+	}
 	return "frac/active.go:Replay"
 }
 
-func oracleCrashRestart(o vh.Opts, rng *vh.RNG, rep *vh.Report, replayOps []string) *vh.Oracle {
+func oracleCrashRestart(o vh.Opts, rng *vh.RNG, rep *vh.Report, replayOps []string, fix bool) (*vh.Oracle, *vh.Channel) {
 	or := vh.NewOracle("crash-restart", "history of rounds; each round is a fresh process: FracManager.Load, search (bulk token and per-document "+
 		"token) and fetch of every bulk seen so far, ingestion of new bulks (acknowledged = Append returned and the index is idle), optionally "+
 		"os.Exit at one of the 7 verif points of ActiveWriter.Write/FileWriter.Write, after which the parent cuts the file being written to a "+
@@ -927,7 +1189,7 @@ func oracleCrashRestart(o vh.Opts, rng *vh.RNG, rep *vh.Report, replayOps []stri
 				scs = append(scs, scenario{[]round{{ingest: []int{4}, crash: 5, point: point, k: k}, {ingest: []int{6}, crash: -1}, {ingest: []int{7}, crash: -1}}})
 			}
 		}
-		for i := 0; i < o.Pick(6, 150); i++ {
+		for i := 0; i < o.Pick(6, 500); i++ {
 			var s scenario
 			next := 10
 			for r, n := 0, rng.Range(2, 4); r < n; r++ {
@@ -951,6 +1213,7 @@ func oracleCrashRestart(o vh.Opts, rng *vh.RNG, rep *vh.Report, replayOps []stri
 	type result struct {
 		f []finding
 		t []string
+		o sysObs
 	}
 	results := make([]result, len(scs))
 	sem := make(chan struct{}, 8)
@@ -960,14 +1223,39 @@ func oracleCrashRestart(o vh.Opts, rng *vh.RNG, rep *vh.Report, replayOps []stri
 		sem <- struct{}{}
 		go func(i int) {
 			defer wg.Done()
-			f, t := runScenario(scs[i])
-			results[i] = result{f, t}
+			f, t, ob := runScenario(scs[i])
+			results[i] = result{f, t, ob}
 			<-sem
 		}(i)
 	}
 	wg.Wait()
+	ch := vh.NewChannel("sys.present", "the histories of the crash-restart oracle, translated to model events over the real zstd-compressed "+
+		"blocks of their bulks (ingest = bulk, exit at point 1 = crash before any byte, 2 = docs block cut at k, 3/4 = docs complete and no meta, "+
+		"5 = meta block cut at k, 6/7 = both complete but unacknowledged, process end without crash = restart); compared: the store is up after the "+
+		"final restart and, per bulk ever attempted, whether the real store serves it wholly (search by bulk token and per-document token, fetch "+
+		"of every ID byte for byte) or not at all, against `present` of the model. Non-trivial: the history contains a crash")
 	seen := map[string]bool{}
 	for i, s := range scs {
+		if ob := results[i].o; ob.reached && (fix || ob.up) && len(ob.bulks) > 0 {
+			var qs, states []string
+			for _, b := range ob.bulks {
+				d, m := bulkBlocks(b)
+				qs = append(qs, vh.Hex(d)+":"+vh.Hex(m))
+				st := ob.state[b]
+				if st == "" {
+					st = "?"
+				}
+				states = append(states, st)
+			}
+			hasCrash := false
+			for _, r := range s.rounds {
+				hasCrash = hasCrash || r.crash >= 0
+			}
+			ch.Add(fmt.Sprintf("wp.present %s %s %s", vh.B(fix), modelHistory(s), strings.Join(qs, ";")),
+				fmt.Sprintf("ok up=%s present=%s", vh.B(ob.up), strings.Join(states, ",")), hasCrash, fmt.Sprintf("bulks=%d", len(ob.bulks)))
+		} else {
+			ch.Tag("skipped-store-down-or-point-not-reached")
+		}
 		nt := false
 		for _, r := range s.rounds {
 			if r.crash >= 0 {
@@ -982,6 +1270,106 @@ func oracleCrashRestart(o vh.Opts, rng *vh.RNG, rep *vh.Report, replayOps []stri
 			}
 			seen[f.class] = true
 			rep.Violate(vh.Violation{Site: siteOf(f.class), Class: f.class, What: f.what, Replay: []string{s.String()}})
+		}
+	}
+	return or, ch
+}
+
+// ------------------------------------------------------------------ oracle fw.groupcommit: concurrent writers on the real FileWriter
+
+type fakeFile struct {
+	clock  *atomic.Int64
+	mu     sync.Mutex
+	writes map[int64][2]int64 // offset -> (len, time the WriteAt finished)
+	syncs  [][2]int64         // (start, end)
+}
+
+func (f *fakeFile) WriteAt(p []byte, off int64) (int, error) {
+	runtime.Gosched()
+	t := f.clock.Add(1)
+	f.mu.Lock()
+	f.writes[off] = [2]int64{int64(len(p)), t}
+	f.mu.Unlock()
+	return len(p), nil
+}
+
+func (f *fakeFile) Sync() error {
+	s := f.clock.Add(1)
+	runtime.Gosched()
+	e := f.clock.Add(1)
+	f.mu.Lock()
+	f.syncs = append(f.syncs, [2]int64{s, e})
+	f.mu.Unlock()
+	return nil
+}
+
+// Every Write that returned must be covered by an fsync that started after its WriteAt finished and ended before the
+// return, and the reserved ranges must tile the file.  Both facts hold for every schedule.
+func oracleGroupCommit(o vh.Opts, rng *vh.RNG, rep *vh.Report) *vh.Oracle {
+	or := vh.NewOracle("fw.groupcommit", "g goroutines x w writes of random sizes on the real frac.FileWriter over a recording WriteAt/Sync fake with a "+
+		"logical clock; asserted for every schedule: each returned Write is covered by a Sync that started after its WriteAt finished and finished "+
+		"before the return; the reserved ranges are disjoint and tile [0,total). Non-trivial: g >= 2")
+	for i := 0; i < o.Pick(30, 300); i++ {
+		g, w := rng.Range(1, 8), rng.Range(1, 20)
+		sizes := make([][]int, g)
+		for a := range sizes {
+			for b := 0; b < w; b++ {
+				sizes[a] = append(sizes[a], rng.Range(1, 64))
+			}
+		}
+		var clock atomic.Int64
+		ff := &fakeFile{clock: &clock, writes: map[int64][2]int64{}}
+		fw := frac.NewFileWriter(ff, 0, false)
+		type ret struct{ off, l, t int64 }
+		rets := make([][]ret, g)
+		var wg sync.WaitGroup
+		for a := 0; a < g; a++ {
+			wg.Add(1)
+			go func(a int) {
+				defer wg.Done()
+				for _, n := range sizes[a] {
+					off, err := fw.Write(make([]byte, n), stopwatch.New())
+					must(err)
+					rets[a] = append(rets[a], ret{off, int64(n), clock.Add(1)})
+				}
+			}(a)
+		}
+		wg.Wait()
+		fw.Stop()
+		line := fmt.Sprintf("fw g=%d w=%d case=%d", g, w, i)
+		bad := ""
+		var all []ret
+		for _, rs := range rets {
+			for _, r := range rs {
+				all = append(all, r)
+				wr, ok := ff.writes[r.off]
+				if !ok || wr[0] != r.l {
+					bad = "returned offset was not written with this length"
+					continue
+				}
+				covered := false
+				for _, s := range ff.syncs {
+					if s[0] > wr[1] && s[1] < r.t {
+						covered = true
+					}
+				}
+				if !covered {
+					bad = "ack-before-fsync"
+				}
+			}
+		}
+		sort.Slice(all, func(x, y int) bool { return all[x].off < all[y].off })
+		next := int64(0)
+		for _, r := range all {
+			if r.off != next {
+				bad = "reserved ranges overlap or leave a gap"
+			}
+			next = r.off + r.l
+		}
+		or.Case(line, g >= 2, fmt.Sprintf("goroutines=%d", g))
+		if bad != "" {
+			rep.Violate(vh.Violation{Site: "frac/file_writer.go:Write", Class: bad, What: "FileWriter.Write returned although " + bad, Replay: []string{line}})
+			break
 		}
 	}
 	return or
@@ -1020,10 +1408,18 @@ func main() {
 		if o.Only == "" || o.Only == "wp.run" {
 			rep.AddChannel(chanRun(o, rng.Fork(), fix), o.Driver)
 		}
+		if o.Only == "" || o.Only == "index" {
+			rep.AddChannel(chanIndex(o, rng.Fork(), fix), o.Driver)
+		}
 	}
-	if o.Only == "" || o.Only == "crash-restart" {
+	if (o.Only == "" && o.Replay == "") || o.Only == "fw.groupcommit" || hasPrefix(replayOps, "fw ") {
+		rep.AddOracle(oracleGroupCommit(o, rng.Fork(), rep))
+	}
+	if (o.Only == "" && (o.Replay == "" || hasPrefix(replayOps, "hist"))) || o.Only == "crash-restart" {
 		conf.SkipFsync = false
-		rep.AddOracle(oracleCrashRestart(o, rng.Fork(), rep, filterPrefix(replayOps, "hist")))
+		or, ch := oracleCrashRestart(o, rng.Fork(), rep, filterPrefix(replayOps, "hist"), fix)
+		rep.AddOracle(or)
+		rep.AddChannel(ch, o.Driver)
 	}
 	rep.Write(o.Out)
 }
@@ -1039,4 +1435,3 @@ func filterPrefix(ops []string, p string) []string {
 	}
 	return r
 }
-
